@@ -76,6 +76,33 @@ Proof.
 Qed.
 
 (* the mask of the criterion added by the loop *)
+(* the target the generators pick (by computation on the translated `target = ...` statements): scans() the lowest-numbered
+   one of the dumps shown, compscans() the one of the FIRST dump shown (repair of C03-F2) *)
+Lemma pick_target_scans : forall o m, pick_target WScans o m = hd_error (indices_of d_target o m).
+Proof. reflexivity. Qed.
+Lemma pick_target_compscans : forall o m, pick_target WCompscans o m = hd_error (map d_target (kept_dumps o m)).
+Proof. reflexivity. Qed.
+Lemma hd_error_In {A} : forall (l : list A) x, hd_error l = Some x -> In x l.
+Proof. intros [|a l] x H; inversion H; subst; left; reflexivity. Qed.
+Lemma pick_target_In : forall w o m t, pick_target w o m = Some t -> In t (map d_target (kept_dumps o m)).
+Proof.
+  intros [|] o m t H.
+  - rewrite pick_target_scans in H. apply hd_error_In in H. unfold indices_of in H. rewrite sort_uniq_In in H. exact H.
+  - rewrite pick_target_compscans in H. apply hd_error_In in H. exact H.
+Qed.
+(* the first kept dump is the dump at the first position the mask selects *)
+Lemma kept_dumps_hd : forall o m d, hd_error (kept_dumps o m) = Some d ->
+  exists p, nth_error (o_dumps o) p = Some d /\ nth p m false = true /\ forall q, (q < p)%nat -> nth q m false = false.
+Proof.
+  intros o m d. unfold kept_dumps. generalize (o_dumps o) as ds. revert m.
+  induction m as [|b m IH]; intros ds H; simpl in H; [discriminate|].
+  destruct ds as [|x ds]; simpl in H; [discriminate|].
+  destruct b; simpl in H.
+  - inversion H; subst. exists 0%nat. split; [reflexivity|]. split; [reflexivity|]. intros q Hq. inversion Hq.
+  - destruct (IH ds H) as (p & A & Bp & C). exists (S p). split; [exact A|]. split; [exact Bp|].
+    intros [|q] Hq; [reflexivity|]. simpl. apply C. lia.
+Qed.
+
 Definition fmask (o : obs) (w : which) (v : Z) : list bool :=
   match w with WScans => scans_mask o [SIdx v] | WCompscans => compscans_mask o [SIdx v] end.
 Lemma nth_map_error {A} (f : A -> bool) : forall l p,
@@ -235,7 +262,7 @@ Definition yield_ok (s : st) (y : yielded B) : Prop :=
   Inv3 o (y_st y) /\ tk (y_st y) = mand (tk s) (fmask o w (y_index y)) /\ fk (y_st y) = fk s /\ bk (y_st y) = bk s
   /\ wk (y_st y) = wk s /\ flk (y_st y) = flk s
   /\ name_of O w (y_index y) = Some (y_name y)
-  /\ (exists rest, indices_of d_target o (tk (y_st y)) = y_target y :: rest)
+  /\ pick_target w o (tk (y_st y)) = Some (y_target y)
   /\ (exists s2, body (y_st y) = Ok (y_body y, s2)).
 
 Lemma J_refl : forall s, Inv3 o s -> J s s.
@@ -247,10 +274,10 @@ Lemma it_loop_spec : body_ok o body -> forall s l s' ys s'', J s s' ->
 Proof.
   intros HB s. induction l as [|v l IH]; intros s' ys s'' HJ H; cbn [it_loop] in H.
   - inversion H; subst. split; [exact HJ|]. split; [reflexivity | constructor].
-  - fold o in H. rewrite it_tfield_eq in H.
+  - fold o in H.
     destruct (select o s' (yield_kw w v)) as [s1|] eqn:E1; [|discriminate].
     destruct (name_of O w v) as [nm|] eqn:En; [|discriminate].
-    destruct (indices_of d_target o (tk s1)) as [|t rest] eqn:Et; [discriminate|].
+    destruct (pick_target w o (tk s1)) as [t|] eqn:Et; [|discriminate].
     destruct (body s1) as [[b s2]|] eqn:Eb; [|discriminate].
     destruct HJ as (H3 & HM & HW & HF & HK).
     destruct (yield_step o w v s' s1 H3 E1) as (I1 & T1 & F1 & B1 & W1 & L1 & K1).
@@ -272,7 +299,7 @@ Proof.
     unfold yield_ok; cbn [y_st y_index y_name y_target y_body].
     split; [exact I1|]. split; [rewrite T1, Etk; reflexivity|]. split; [rewrite F1; apply (HM DF)|].
     split; [rewrite B1; apply (HM DB)|]. split; [congruence|]. split; [congruence|]. split; [exact En|].
-    split; [exists rest; exact Et | exists s2; exact Eb].
+    split; [exact Et | exists s2; exact Eb].
 Qed.
 
 Lemma set_key_not_nil : forall k v l, set_key k v l <> [].
@@ -409,9 +436,13 @@ Lemma yield_values : forall B (O : sobs) w (body : st -> res (B * st)) s ys sf,
   forall y, In y ys ->
   (* the yielded state / label is that of every dump shown *)
   (names_ok O w -> forall p d, nth_error (o_dumps (so O)) p = Some d -> shown y p = true -> y_name y = namefield w d)
-  (* the yielded target is the lowest-numbered target among the dumps shown ... *)
+  (* the yielded target is the target of one of the dumps shown ... *)
   /\ (exists p d, nth_error (o_dumps (so O)) p = Some d /\ shown y p = true /\ d_target d = y_target y)
-  /\ (forall p d, nth_error (o_dumps (so O)) p = Some d -> shown y p = true -> y_target y <= d_target d)
+  (* ... scans(): the lowest-numbered one ... *)
+  /\ (w = WScans -> forall p d, nth_error (o_dumps (so O)) p = Some d -> shown y p = true -> y_target y <= d_target d)
+  (* ... compscans(): the target of the FIRST dump shown, in time order ("first target associated with compound scan") ... *)
+  /\ (w = WCompscans -> exists p d, nth_error (o_dumps (so O)) p = Some d /\ shown y p = true /\ d_target d = y_target y
+                                    /\ forall q, (q < p)%nat -> shown y q = false)
   (* ... hence THE target of the dumps shown whenever they share one (every scan of a well-formed observation) *)
   /\ (forall t, (forall p d, nth_error (o_dumps (so O)) p = Some d -> shown y p = true -> d_target d = t) ->
         y_target y = t).
@@ -419,18 +450,22 @@ Proof.
   intros B O w body s ys sf HB H3 H y Hy.
   destruct (partition_facts B O w body s ys sf HB H3 H) as (_ & _ & Hs & _).
   destruct (iterate_spec O w body HB s ys sf H3 H) as (_ & _ & Hall).
-  rewrite Forall_forall in Hall. destruct (Hall y Hy) as (_ & _ & _ & _ & _ & _ & Hn & [rest Ht] & _).
-  assert (Hin : In (y_target y) (map d_target (kept_dumps (so O) (tk (y_st y))))).
-  { apply sort_uniq_In. unfold indices_of in Ht. rewrite Ht. left; reflexivity. }
+  rewrite Forall_forall in Hall. destruct (Hall y Hy) as (_ & _ & _ & _ & _ & _ & Hn & Ht & _).
+  assert (Hin : In (y_target y) (map d_target (kept_dumps (so O) (tk (y_st y))))) by (eapply pick_target_In; exact Ht).
   assert (Hex : exists p d, nth_error (o_dumps (so O)) p = Some d /\ shown y p = true /\ d_target d = y_target y).
   { apply in_map_iff in Hin. destruct Hin as [d [Ed Hd]]. apply kept_dumps_In in Hd. destruct Hd as [p [A Bp]].
     exists p, d. auto. }
-  assert (Hmin : forall p d, nth_error (o_dumps (so O)) p = Some d -> shown y p = true -> y_target y <= d_target d).
-  { intros p d Hd Hp. apply (sorted_hd_min _ rest). rewrite <- Ht. apply sort_uniq_sorted.
-    rewrite <- Ht. apply sort_uniq_In. apply in_map. apply kept_dumps_In. exists p; auto. }
-  split; [|split; [exact Hex|split; [exact Hmin|]]].
+  split; [|split; [exact Hex|split; [|split]]].
   - intros Hok p d Hd Hp. rewrite (Hs y p Hy), Hd in Hp. apply andb_true_iff in Hp. destruct Hp as [_ Hp].
     apply Z.eqb_eq in Hp. specialize (Hok d (nth_error_In _ _ Hd)). rewrite Hp, Hn in Hok. congruence.
+  - intros -> p d Hd Hp. rewrite pick_target_scans in Ht.
+    destruct (indices_of d_target (so O) (tk (y_st y))) as [|t rest] eqn:Et; [discriminate|].
+    inversion Ht; subst t. apply (sorted_hd_min _ rest). rewrite <- Et. apply sort_uniq_sorted.
+    rewrite <- Et. apply sort_uniq_In. apply in_map. apply kept_dumps_In. exists p; auto.
+  - intros ->. rewrite pick_target_compscans in Ht.
+    destruct (kept_dumps (so O) (tk (y_st y))) as [|d0 rest] eqn:Ek; [discriminate|].
+    inversion Ht as [Et]. destruct (kept_dumps_hd (so O) (tk (y_st y)) d0) as (p & A & Bp & C); [rewrite Ek; reflexivity|].
+    exists p, d0. split; [exact A|]. split; [exact Bp|]. split; [reflexivity|]. exact C.
   - intros t Ht'. destruct Hex as (p & d & Hd & Hp & Et). rewrite <- Et. eapply Ht'; eauto.
 Qed.
 
@@ -489,7 +524,7 @@ Lemma ex_facts :
   /\ exists ys sf, iterate_nested ex_O WCompscans WScans ex_s = Ok (ys, sf)
        /\ map (summary (map (summary (fun _ : unit => tt)))) ys =
           [(0, 1, 1, [5; 6], [(2, 0, 1, [5; 6], tt)]);
-           (1, 2, 0, [7; 8; 9], [(3, 2, 1, [7; 8], tt); (4, 3, 0, [9], tt)])]
+           (1, 2, 1, [7; 8; 9], [(3, 2, 1, [7; 8], tt); (4, 3, 0, [9], tt)])]
        /\ positions (tk sf) = [5; 6; 7; 8; 9] /\ fk sf = fk ex_s /\ bk sf = bk ex_s.
 Proof.
   split.
